@@ -472,14 +472,31 @@ impl<A: Address> Net<A> {
         pid: PeerId,
         reason: &[u8],
     ) -> Result<(), CB::Error> {
-        let result;
+        let addr;
         {
-            let peer = &mut self.peers[pid];
+            let peer = &self.peers[pid];
             assert!(peer.conn.is_unconnected());
-            result = peer.conn.disconnect(&mut cc(cb, peer.addr), reason);
+            addr = peer.addr;
         }
+        assert!(
+            reason.iter().all(|&b| b != 0),
+            "reason must not contain NULs"
+        );
+        // The peer's connection hasn't seen the connect packet, it has no
+        // state it could send a close message from (`Connection::disconnect`
+        // is only valid once the handshake has started). Send the close
+        // message statelessly instead.
+        let result = self.builder.send(
+            cb,
+            addr,
+            Packet::Connected(ConnectedPacket {
+                token: None,
+                ack: 0,
+                type_: ConnectedPacketType::Control(ControlPacket::Close(reason)),
+            }),
+        );
         self.peers.remove_peer(pid);
-        result
+        result.map_err(|e| e.unwrap_callback())
     }
     pub fn tick<'a, CB: Callback<A>>(&'a mut self, cb: &'a mut CB) -> Tick<'a, A, CB> {
         Tick {
